@@ -4,6 +4,7 @@
 From Coq Require Import String Ascii List Bool Arith NArith ZArith Lia.
 From Raven Require Import Base.GoStr Base.GoStrFacts Model.Search Model.SearchText Spec.Search Model.SearchClass
   Proof.SearchTok Proof.SearchAtoms Proof.SearchDate Proof.SearchEval Proof.SearchToks.
+From Raven Require Model.SeqSet Spec.SeqSet Proof.FetchSearchExact.
 Import ListNotations.
 Local Arguments Ascii.eqb : simpl never.
 
@@ -35,17 +36,9 @@ Proof.
     try reflexivity.
   - destruct f0; reflexivity.
   - destruct f0; reflexivity.
-  - cbn [wf_key] in W. unfold set_class in C.
-    destruct s as [|[[d|]|[a|] [b|]] [|? ?]]; try discriminate; unfold set_ok in W; cbn in W; rewrite andb_true_r in W.
-    + destruct (numeral_digits d W) as [Hd Hne]. unfold print_set. cbn [map join print_item print_snum].
-      destruct d as [|c d]; [congruence|]. assert (Hc : is_digit c = true) by (cbn in Hd; now apply andb_true_iff in Hd).
-      cbn [key_len to_upper map length]. rewrite (upper_digit c Hc), (kw_of_digit c _ Hc).
-      pose proof (ra_digit c d Hc) as R. unfold ra in R. cbn [to_upper map] in R. rewrite (upper_digit c Hc) in R. now rewrite R.
-    + apply andb_true_iff in W as [Wa Wb]. destruct (numeral_digits a Wa) as [Hd Hne].
-      unfold print_set. cbn [map join print_item print_snum].
-      destruct a as [|c a]; [congruence|]. assert (Hc : is_digit c = true) by (cbn in Hd; now apply andb_true_iff in Hd).
-      cbn [app key_len to_upper map length]. rewrite (upper_digit c Hc), (kw_of_digit c _ Hc).
-      pose proof (ra_digit c (a ++ colon :: b) Hc) as R. unfold ra in R. cbn [to_upper map] in R. rewrite (upper_digit c Hc) in R. now rewrite R.
+  - cbn [wf_key] in W. unfold set_ok in W.
+    destruct (print_set_facts s W) as (U & _ & HD & _). destruct (head_facts _ HD U) as (K & _ & R).
+    cbn [key_len length]. unfold ra in R. rewrite U in *. now rewrite K, R.
   - destruct h; reflexivity.
   - destruct sent, c; reflexivity.
 Qed.
@@ -93,12 +86,13 @@ Lemma spec_all_cons n u k ks i sm : spec_all n u (k :: ks) i sm = spec_eval n u 
 Proof. reflexivity. Qed.
 
 Section Prog.
-Variables (nseq maxuid : Z).
 Variable mb : list smsg.
+Notation nseq := (Z.of_nat (length mb)).
+Notation maxuid := (last_uid mb).
 Variables (i : Z) (sm : smsg).
 Hypothesis Hin : In (i, sm) (numbered mb).
 Hypothesis Hmb : mb_ok mb = true.
-Notation m := (to_msg (i, sm)).
+Notation m := (to_msg mb (i, sm)).
 Notation SP := (spec_eval nseq maxuid).
 Notation EV := (eval_loop go_text m).
 
@@ -117,7 +111,7 @@ Lemma key_step k : wf_key k = true -> key_class k mb = None ->
   forall f rest, (depth k <= f)%nat -> EV (S f) (key_tokens k ++ rest) = andk (SP k i sm) (EV f rest).
 Proof.
   induction k as [k A | k IH | a b IHa IHb | l IH] using key_ind2; intros W C f rest L.
-  - rewrite (atomic_class k mb A) in C. now apply (simple_step f nseq maxuid mb i sm Hin Hmb).
+  - rewrite (atomic_class k mb A) in C. now apply (simple_step f mb i sm Hin Hmb).
   - (* NOT *) pose proof (search_key_length_key mb k rest ltac:(exact W) ltac:(exact C)) as KL.
     cbn [key_class wf_key depth] in *. cbn [key_tokens app]. rewrite el_not. cbv zeta. rewrite KL.
     replace (length (key_tokens k ++ rest) <? length (key_tokens k))%nat with false
